@@ -266,6 +266,9 @@ func runSign0(c SCase) (n cnt, err error) {
 		return n, err
 	}
 	payload := rtmpx.Fill(c.Size, c.Fill)
+	if c.Fill%5 == 0 {
+		sk = &jose.JsonWebKey{Key: sk, KeyID: "kid-1"} // the key handed over as a JSON Web Key
+	}
 	signer, err := jose.NewSigner(jose.SignatureAlgorithm(c.Alg), sk)
 	if err != nil {
 		return n, fmt.Errorf("NewSigner(%s): %v", c.Alg, err)
@@ -318,6 +321,13 @@ func runSign0(c SCase) (n cnt, err error) {
 		return n, fmt.Errorf("%s: Verify succeeds with a different key", c.Alg)
 	}
 	n.evals++
+	if got, err := parsed.Verify(&jose.JsonWebKey{Key: vk}); err != nil || !bytes.Equal(got, payload) {
+		return n, fmt.Errorf("%s: Verify with the right key handed over as a JSON Web Key: %d bytes, err %v", c.Alg, len(got), err)
+	}
+	if got, err := parsed.Verify("not a key"); err == nil {
+		return n, fmt.Errorf("%s: Verify with a value that is no key at all returns %d bytes and no error", c.Alg, len(got))
+	}
+	n.evals += 2
 	for i, k := range otherKeys(vk) {
 		perr := ev.Try(func() error { _, err = parsed.Verify(k); return nil })
 		if perr != nil {
@@ -505,6 +515,9 @@ func runEncrypt0(c ECase) (n cnt, err error) {
 		return n, err
 	}
 	payload := c.payload()
+	if c.Fill%5 == 0 {
+		ek = &jose.JsonWebKey{Key: ek, KeyID: "kid-1"} // the key handed over as a JSON Web Key
+	}
 	e, err := jose.NewEncrypter(jose.KeyAlgorithm(c.Alg), jose.ContentEncryption(c.Enc), ek)
 	if err != nil {
 		return n, fmt.Errorf("NewEncrypter(%s,%s): %v", c.Alg, c.Enc, err)
@@ -594,6 +607,13 @@ func runEncrypt0(c ECase) (n cnt, err error) {
 	}
 	n.evals++
 	// other keys of the same kind: EC keys on the other curves, symmetric keys one byte shorter / longer
+	if got, err := parsed.Decrypt(&jose.JsonWebKey{Key: dk}); err != nil || !bytes.Equal(got, payload) {
+		return n, fmt.Errorf("%s: Decrypt with the right key handed over as a JSON Web Key: %d bytes, err %v", what, len(got), err)
+	}
+	if got, err := parsed.Decrypt("not a key"); err == nil {
+		return n, fmt.Errorf("%s: Decrypt with a value that is no key at all returns %d bytes and no error", what, len(got))
+	}
+	n.evals += 2
 	for i, k := range otherKeys(dk) {
 		var out []byte
 		perr := ev.Try(func() error { out, err = parsed.Decrypt(k); return nil })
